@@ -1,13 +1,25 @@
 import RedisVerif.Driver.C15
 import RedisVerif.Model.Conn
+import RedisVerif.Model.ConnWrite
+import RedisVerif.Model.ConnSim
 
 /-
   C04 sub-driver.  One line in, one line out:
     C <minPipeline> <batchThreshold> <headerLen> <readSize> <maxBuffer> <seg,seg,…>
-        segments are hex tokens (`x…`) separated by commas; the connection receives them as
+        <headerLen> is `<n>` or `<n>+g` (`+g`: check_acl_permission guarded, see `hlOf`);
+      segments are hex tokens (`x…`) separated by commas; the connection receives them as
         successive network segments and then EOF
       → n=<replies> [<reply> ; …] end=<eof|crash>
     reply = `V <value>` | `E` (an error reply) | `PE` (-ERR protocol error) | `OV` (buffer overflow)
+    S <seg,seg,…>   the mirror `SimulatedConnection::process` → n=<replies> [<reply> ; …] end=<eof|crash>
+    K <minPipeline> <batchThreshold> <headerLen> <readSize> <maxBuffer> <seg,seg,…>
+      → n=<replies> end=<eof|crash>      (commands outside the reference executor: count only)
+    W <minPipeline> <batchThreshold> <headerLen> <readSize> <maxBuffer> <seg,seg,…> <script> <stop>
+        the WRITE side (Model/ConnWrite.lean): script = answers of the peer's socket to successive
+        poll_write / poll_flush calls, `a<k>` (takes k bytes / flush ok) or `f` (fails), comma
+        separated, `-` = empty (exhausted = takes everything); stop = `-` or the number of reads
+        after which read() fails
+      → w=<hex of the bytes the peer received> reads=<reads processed>
 -/
 namespace RedisVerif.Driver.C04
 open RedisVerif.Driver RedisVerif.Resp RedisVerif.Conn
@@ -49,21 +61,67 @@ def showConn (out : List Action') : String :=
     let rs := replies ExSt.init acts
     s!"n={rs.length} [{" ; ".intercalate (rs.map showReply)}] end={if crashed acts then "crash" else "eof"}"
 
+/-- the `<headerLen>` token: `14` = the code with `parts[0]` in check_acl_permission (a name without a
+    non-white-space character panics), `14+g` = guarded (`parts.first()`, after the fix) -/
+def hlOf (t : String) : Option (Nat × Bool) :=
+  match t.splitOn "+" with
+  | [n] => n.toNat?.map (fun k => (k, false))
+  | [n, "g"] => n.toNat?.map (fun k => (k, true))
+  | _ => none
+
+def wevOf (t : String) : Option ConnW.WEv :=
+  match t.toList with
+  | ['f'] => some .fail
+  | 'a' :: ds => (String.ofList ds).toNat?.map ConnW.WEv.accept
+  | _ => none
+
+def scriptOf (t : String) : Option (List ConnW.WEv) :=
+  if t == "-" then some [] else (t.splitOn ",").mapM wevOf
+
 def step (line : String) : String :=
   match tokens line with
-  | ["P", mp, bt, hl, rs, mb, ps, conns] =>
-    match mp.toNat?, bt.toNat?, hl.toNat?, rs.toNat?, mb.toNat?, ps.toNat?, (conns.splitOn ";").mapM connOf with
-    | some mp, some bt, some hl, some rs, some mb, some ps, some specs =>
+  | ["W", mp, bt, hl, rs, mb, segs, script, stop] =>
+    let stopO : Option (Option Nat) := if stop == "-" then some none else stop.toNat?.map some
+    match mp.toNat?, bt.toNat?, hlOf hl, rs.toNat?, mb.toNat?, segsOf segs, scriptOf script, stopO with
+    | some mp, some bt, some (hl, ng), some rs, some mb, some ss, some sc, some st =>
       let cfg : Config := { minPipeline := mp, batchThreshold := bt, headerLen := hl, readSize := rs,
-                            maxBuffer := mb, checked := true, codec := codec1, env := C15.envD }
+                            maxBuffer := mb, checked := true, nameGuard := ng, codec := codec1, env := C15.envD }
+      let r := ConnW.runW cfg ConnW.refExec ExSt.init sc ss st
+      s!"w={hexOfBytes r.out} reads={r.reads}"
+    | _, _, _, _, _, _, _, _ => "bad-op"
+  | ["P", mp, bt, hl, rs, mb, ps, conns] =>
+    match mp.toNat?, bt.toNat?, hlOf hl, rs.toNat?, mb.toNat?, ps.toNat?, (conns.splitOn ";").mapM connOf with
+    | some mp, some bt, some (hl, ng), some rs, some mb, some ps, some specs =>
+      let cfg : Config := { minPipeline := mp, batchThreshold := bt, headerLen := hl, readSize := rs,
+                            maxBuffer := mb, checked := true, nameGuard := ng, codec := codec1, env := C15.envD }
       let srv := serve cfg (Pool.init ps true) specs (seqEvents specs.length)
       " | ".intercalate (srv.outs.map (fun o => showConn o.2))
     | _, _, _, _, _, _, _ => "bad-op"
-  | ["C", mp, bt, hl, rs, mb, segs] =>
-    match mp.toNat?, bt.toNat?, hl.toNat?, rs.toNat?, mb.toNat?, segsOf segs with
-    | some mp, some bt, some hl, some rs, some mb, some ss =>
+  | ["S", segs] =>
+    -- the MIRROR (SimulatedConnection::process, Model/ConnSim.lean) on the same reference executor
+    match segsOf segs with
+    | some ss =>
+      let r := ConnSim.simRun C15.envD (fun _ => false) ss
+      let rs := replies ExSt.init (r.done.map (fun f => Action.exec f .generic))
+      s!"n={rs.length} [{" ; ".intercalate (rs.map showReply)}] end={if r.crashed then "crash" else "eof"}"
+    | none => "bad-op"
+  | ["K", mp, bt, hl, rs, mb, segs] =>
+    -- any well-formed commands (the reference executor does not know them): the number of replies only
+    match mp.toNat?, bt.toNat?, hlOf hl, rs.toNat?, mb.toNat?, segsOf segs with
+    | some mp, some bt, some (hl, ng), some rs, some mb, some ss =>
       let cfg : Config := { minPipeline := mp, batchThreshold := bt, headerLen := hl, readSize := rs,
-                            maxBuffer := mb, checked := true, codec := codec1, env := C15.envD }
+                            maxBuffer := mb, checked := true, nameGuard := ng, codec := codec1, env := C15.envD }
+      let acts := run cfg ss
+      -- replies that reach the wire: a panic takes the unflushed replies of its read with it
+      let w := ConnW.runW cfg (fun (u : Unit) _ _ => (u, Val.nullBulk)) () [] ss none
+      let n := (feedAll (fun b => (parseG codec1 C15.envD b).out) FeedSt.init [w.out]).frames.length
+      s!"n={n} end={if crashed acts then "crash" else "eof"}"
+    | _, _, _, _, _, _ => "bad-op"
+  | ["C", mp, bt, hl, rs, mb, segs] =>
+    match mp.toNat?, bt.toNat?, hlOf hl, rs.toNat?, mb.toNat?, segsOf segs with
+    | some mp, some bt, some (hl, ng), some rs, some mb, some ss =>
+      let cfg : Config := { minPipeline := mp, batchThreshold := bt, headerLen := hl, readSize := rs,
+                            maxBuffer := mb, checked := true, nameGuard := ng, codec := codec1, env := C15.envD }
       let acts := run cfg ss
       let rs := replies ExSt.init acts
       s!"n={rs.length} [{" ; ".intercalate (rs.map showReply)}] end={if crashed acts then "crash" else "eof"}"
